@@ -73,20 +73,28 @@ def main(argv=None):
         if hasattr(mod, 'positive_controls'):
             mod.positive_controls()
         extra = {}
+        st_error = None
         if args.tier == 'thorough' and not args.no_selftest and not only:
             from sa import selftest
             st = selftest.run(prop, seed=seed)
             extra['selftest'] = st
+            # self-test failures are reported after (never instead of) the findings on the analysed tree
             if st['missed']:
-                raise AnalysisError(f'{prop}.selftest', ','.join(st['missed']),
-                                    'SELFTEST-MISS: the checker did not report '
-                                    'a seeded breakage it is designed to catch')
+                st_error = AnalysisError(f'{prop}.selftest', ','.join(st['missed']),
+                                         'SELFTEST-MISS: the checker did not report '
+                                         'a seeded breakage it is designed to catch')
             # a breakage that used to yield a finding must not degrade to fail-closed (engine regression)
             regress = sorted(set(st['fail_closed']) & set(selftest.expected_caught(prop)))
-            if regress:
-                raise AnalysisError(f'{prop}.selftest', ','.join(regress),
-                                    'SELFTEST-REGRESSION: a seeded breakage that was reported as a finding now only '
-                                    'fails closed: ' + str(st['detail'][regress[0]])[:200])
+            if regress and st_error is None:
+                st_error = AnalysisError(f'{prop}.selftest', ','.join(regress),
+                                         'SELFTEST-REGRESSION: a seeded breakage that was reported as a finding now only '
+                                         'fails closed: ' + str(st['detail'][regress[0]])[:200])
+            # behaviour-preserving refactorings must leave the check silent
+            if st['false_alarms'] and st_error is None:
+                fa = st['false_alarms']
+                st_error = AnalysisError(f'{prop}.selftest', ','.join(fa),
+                                         'SELFTEST-FALSE-ALARM: the checker reports on a behaviour-preserving refactoring: '
+                                         + str(st['detail'][fa[0]])[:200])
         new, old = classify(ctx.findings)
         for f, k in old:
             print(f'KNOWN-FINDING: property={prop} {k["what"]} [{f.key}]')
@@ -106,6 +114,9 @@ def main(argv=None):
                 print(f'VIOLATION property={prop} replay={p}')
             return 1
         if ctx.errors:
+            return 2
+        if st_error is not None:
+            print(f'ANALYSIS-ERROR {st_error}')
             return 2
         print(f'OK property={prop} tier={args.tier} rules={len(summary)} '
               f'instances={sum(s["instances"] for s in summary)} '
